@@ -61,6 +61,21 @@ class PackedEval:
             res = False      # trait default: IsPacked::no()
             self.memo[key] = res
             return res
+        if type_string.startswith("(") and not any("$" in str(t_) for t_ in tsub.values()):
+            # tuple impls (and the helpers they call) are folded concretely from rustc's layout constants
+            from .cinterp import ConcreteInterp, Unknown
+            an0 = Analyzer(self.facts, no_events, inline=lambda fid: False)
+            ci = ConcreteInterp(self.facts, dict(tsub), lambda t_: self.decide(t_, ver, stack + (type_string,)), an0.size_of)
+            try:
+                r = ci.run_fn(fn, [ver])
+                res = r[1] if isinstance(r, tuple) and r and r[0] == "packed" else None
+            except Unknown:
+                res = None
+            except Exception:
+                res = None
+            if res is not None:
+                self.memo[key] = res
+                return res
         guards = {}
         v = None
         for _ in range(10):
